@@ -180,6 +180,22 @@ func (s *story) launch(op string) string {
 // never uses it.
 func (s *story) joinPhase(op string) (in bool) {
 	r := s.r
+	if r.Intn(12) == 0 {
+		// the room answers the request by removing the occupant (kick, ban,
+		// shutdown): an unavailable presence, no self-presence.  The call may only
+		// end with its context's error.
+		s.shape = append(s.shape, 'U')
+		l := s.launch(op)
+		s.add(step{Op: "seen", Label: l})
+		s.add(step{Op: "kick"})
+		if r.Intn(2) == 0 {
+			s.add(step{Op: "barrier"})
+		}
+		s.add(step{Op: "cancel", Label: l})
+		s.add(step{Op: "await", Label: l, Must: true})
+		s.add(step{Op: "barrier"})
+		return false
+	}
 	switch v := r.Intn(20); {
 	case v < 8: // the room answers with the self-presence
 		s.shape = append(s.shape, 'J')
